@@ -153,6 +153,7 @@ func (e *itArr) arrTarget(rq arrFlavourReq) (a *atree.Array, ld string, want []h
 		if len(full) < len(e.shadow) {
 			e.st.Hit("arr:obj:loaded:partial")
 		}
+		e.loadedExact("reference run for the iterator object / early stop", fresh, full)
 		return a2, idList(loadedIDs(fresh)), full, true
 	}
 	a = e.arr
@@ -350,6 +351,7 @@ func (e *itMap) mapTarget(fl string, mk func() atree.DigesterBuilder) (m *atree.
 		if len(got) < len(full) {
 			e.st.Hit("map:obj:loaded:partial")
 		}
+		e.loadedExact("reference run for the iterator object / early stop", fresh, got)
 		return m2, idList(loadedIDs(fresh)), got, true
 	}
 	m = e.m
